@@ -6,14 +6,14 @@
    atomic section of thread t (the locked section "second precheck + PutRegion", then one storage write at a
    time), LFlush is a flush of the write-back batch.  Thread ids are arbitrary integers, so any number of
    concurrent streams, any delivery order, duplicates and delays are label lists; disabled labels are skipped.
-   Regions are arbitrary (ids, byte-string keys, epochs, terms, peers) within `wf_region`: valid key range and
-   a well-formed peer list (the domain of C07).  The three kinds of labels are exactly the atomic sections of
+   Regions are arbitrary (ids, byte-string keys, epochs, peers) within `hb_ok`: valid key range and a well-formed
+   peer list (`wf_region`, the domain of C07) and a raft term >= 0 (a uint64; 0 = the store reports no term).  The three kinds of labels are exactly the atomic sections of
    processRegionHeartbeat (proof/C06_Skel.v: regenerated skeleton with the position of c.Lock(), the second
    PreCheckPutRegion, PutRegion and the storage writes). *)
 From Coq Require Import Sorting.Sorted.
 From PDV Require Import lib.Base lib.C07_Key gen.Gen_C06 model.C07_BTreeSpec model.C07_Region
   proof.C07_Sorted proof.C07_Tree proof.C07_RegionProof proof.C07_Spec
-  model.C06_Heartbeat proof.C06_HeartbeatProof proof.C06_Storage proof.C06_Closed proof.C06_Skel.
+  model.C06_Heartbeat proof.C06_HeartbeatProof proof.C06_Storage proof.C06_Closed proof.C06_Concurrent proof.C06_Skel.
 Local Open Scope Z_scope.
 
 (* `reach wb ls` = the state after the history/schedule ls from the empty cluster (wb: write-back region storage) *)
@@ -23,11 +23,12 @@ Theorem C06_no_overlap : forall wb ls,
   Forall validP (cached (h_cache (reach wb ls))) /\ StronglySorted before (cached (h_cache (reach wb ls))).
 Proof. exact c_no_overlap. Qed.
 
-(* one label never lowers version, conf_ver or a reported term of a served id *)
+(* one label never lowers version, conf_ver or raft term of a served id (a heartbeat that reports no term keeps the
+   served one: BasicCluster.PutRegion since /repo 9338658) *)
 Theorem C06_epoch_monotone_step : forall wb ls l h' id x x',
   hl_step (reach wb ls) l = Some h' ->
   get_region (h_cache (reach wb ls)) id = Some x -> get_region (h_cache h') id = Some x' ->
-  r_ver x <= r_ver x' /\ r_confver x <= r_confver x' /\ (0 < r_term x' -> r_term x <= r_term x').
+  r_ver x <= r_ver x' /\ r_confver x <= r_confver x' /\ r_term x <= r_term x'.
 Proof. exact c_epoch_step. Qed.
 
 (* over a whole execution, while the id stays served: version and conf_ver *)
@@ -36,21 +37,25 @@ Theorem C06_versions_monotone_per_id : forall wb ls1 ls2 id x x',
   get_region (h_cache (reach wb ls1)) id = Some x ->
   get_region (h_cache (exec hl_step (reach wb ls1) ls2)) id = Some x' ->
   r_ver x <= r_ver x' /\ r_confver x <= r_confver x'.
-Proof. exact c_versions_chain. Qed.
+Proof. intros. destruct (c_epochs_chain wb ls1 ls2 id x x') as (A & B & _); auto. Qed.
 
-(* ... and the raft term, when every heartbeat reports one *)
-Theorem C06_term_monotone_per_id_partial : forall wb ls1 ls2 id x x',
-  Forall reports_term ls1 -> Forall reports_term ls2 ->
+(* ... and the raft term, for any mix of heartbeats with and without a reported term (this was
+   C06_term_monotone_per_id_partial with the hypothesis "every heartbeat reports a term"; the full clause was refuted
+   by the terms 5, 0, 3 before the repair) *)
+Theorem C06_term_monotone_per_id : forall wb ls1 ls2 id x x',
   always_served id (reach wb ls1) ls2 ->
   get_region (h_cache (reach wb ls1)) id = Some x ->
   get_region (h_cache (exec hl_step (reach wb ls1) ls2)) id = Some x' ->
   r_term x <= r_term x'.
-Proof. exact c_term_chain. Qed.
+Proof. intros. destruct (c_epochs_chain wb ls1 ls2 id x x') as (_ & _ & C); auto. Qed.
 
-(* without that hypothesis (a heartbeat without term between two reported terms) the clause is false *)
-Definition C06_term_monotone_full : Prop := term_monotone_full.
-Theorem C06_term_monotone_refuted : ~ C06_term_monotone_full.
-Proof. exact term_monotone_refuted_pf. Qed.
+(* the old counterexample as a regression case: the term-less heartbeat keeps term 5, the heartbeat with term 3 is rejected *)
+Example C06_term_gap_regression :
+  let h1 := exec hl_step (h_init false) [LBegin 1 (term_gap_region 5 1); LStep 1; LStep 1] in
+  let h2 := exec hl_step h1 [LBegin 1 (term_gap_region 0 2); LStep 1; LStep 1] in
+  option_map r_term (get_region (h_cache h2) 1) = Some 5 /\
+  snd (begin h2 1 (term_gap_region 3 3)) = HErr.
+Proof. exact term_gap_behaves. Qed.
 
 (* both prechecks reject exactly the heartbeats the statement calls stale: staler than the cached region of the
    same id (term when reported, version, conf_ver) or older in version than a cached region it overlaps *)
@@ -64,9 +69,10 @@ Theorem C06_stale_heartbeat_rejected_unchanged_first : forall wb ls t r,
   stale_spec (cached (h_cache (reach wb ls))) r = true -> begin (reach wb ls) t r = (reach wb ls, HErr).
 Proof. exact c_stale_first. Qed.
 
-(* ... and at the check under the cluster lock when it became stale in between *)
+(* ... and at the check under the cluster lock when it became stale in between (every thread that waits for the lock
+   re-checks: saveKV or isNew imply saveCache) *)
 Theorem C06_stale_heartbeat_rejected_unchanged_locked : forall wb ls t r fl,
-  th_get (h_threads (reach wb ls)) t = Some (PLock r fl) -> f_cache fl = true ->
+  th_get (h_threads (reach wb ls)) t = Some (PLock r fl) ->
   stale_spec (cached (h_cache (reach wb ls))) r = true ->
   exists h', step (reach wb ls) t = (h', HErr) /\ h_cache h' = h_cache (reach wb ls) /\ h_store h' = h_store (reach wb ls).
 Proof. exact c_stale_locked. Qed.
@@ -79,19 +85,19 @@ Proof. exact c_rejected_unchanged. Qed.
 
 (* the regions displaced by an accepted put leave the cache in the same atomic section *)
 Theorem C06_displaced_gone_from_cache : forall wb ls r x,
-  wf_region r = true -> In x (snd (set_region (h_cache (reach wb ls)) r)) ->
-  get_region (fst (set_region (h_cache (reach wb ls)) r)) (r_id x) = None /\ In x (cached (h_cache (reach wb ls))).
+  wf_region r = true -> In x (snd (put_region (h_cache (reach wb ls)) r)) ->
+  get_region (fst (put_region (h_cache (reach wb ls)) r)) (r_id x) = None /\ In x (cached (h_cache (reach wb ls))).
 Proof. exact c_displaced_cache. Qed.
 
 (* heartbeats handled one at a time (flushes of the write-back batch anywhere in between), either backend:
    neither the storage nor the pending write-back batch (`held`) ever has a region that is not served ... *)
-Theorem C06_displaced_gone_from_storage_sequential_partial : forall wb ops,
+Theorem C06_displaced_gone_from_storage_sequential : forall wb ops,
   Forall seq_op ops ->
   forall id, held (h_store (seq_ops wb ops)) id -> get_region (h_cache (seq_ops wb ops)) id <> None.
 Proof. exact c_storage_seq. Qed.
 
 (* ... hence a region displaced by a heartbeat is gone from storage, and from the batch, when that heartbeat returns *)
-Theorem C06_displaced_gone_when_heartbeat_returns_sequential_partial : forall wb ops r x,
+Theorem C06_displaced_gone_when_heartbeat_returns_sequential : forall wb ops r x,
   Forall seq_op ops -> wf_region r = true ->
   get_region (h_cache (seq_ops wb ops)) (r_id x) <> None ->
   get_region (h_cache (fst (heartbeat (seq_ops wb ops) r))) (r_id x) = None ->
@@ -110,6 +116,23 @@ Example C06_region_storage_regression :
   load_region (h_store h) 1 = None /\ map fst (s_kv (h_store h)) = [2] /\ map r_id (cached (h_cache h)) = [2].
 Proof. exact witness_writeback_behaves. Qed.
 
+(* concurrent heartbeats (the statement asks for the storage clause only when heartbeats are handled one at a time).
+   For every interleaving of the atomic sections in which no locked section displaces a region whose save is still
+   pending in another thread (`calm`): whatever storage or the write-back batch holds is served or its delete is on its
+   way, and once no storage write is pending storage holds served regions only *)
+Theorem C06_displaced_gone_from_storage_interleaved : forall wb ls, calm (h_init wb) ls ->
+  let h := exec hl_step (h_init wb) ls in
+  (forall id, held (h_store h) id -> get_region (h_cache h) id <> None \/ pending_del h id) /\
+  ((forall t todo, ~ In (t, PStore todo) (h_threads h)) ->
+   forall id x, load_region (h_store h) id = Some x -> get_region (h_cache h) id <> None).
+Proof. exact storage_subset_interleaved_pf. Qed.
+
+(* ... and without that restriction it is false: a save overtaken by the delete of the displacing heartbeat
+   (storage writes are made after c.Unlock(); cluster.go documents this as not fatal) *)
+Definition C06_displaced_gone_from_storage_concurrent : Prop := storage_subset_concurrent.
+Theorem C06_displaced_gone_from_storage_concurrent_refuted : ~ C06_displaced_gone_from_storage_concurrent.
+Proof. exact storage_subset_concurrent_refuted_pf. Qed.
+
 (* non-vacuity: two threads race on overlapping regions; the stale one passes its first check, is rejected under
    the lock; the accepted one displaces a region *)
 Example C06_nonvacuous :
@@ -125,13 +148,14 @@ Proof. vm_compute. auto. Qed.
 Print Assumptions C06_no_overlap.
 Print Assumptions C06_epoch_monotone_step.
 Print Assumptions C06_versions_monotone_per_id.
-Print Assumptions C06_term_monotone_per_id_partial.
-Print Assumptions C06_term_monotone_refuted.
+Print Assumptions C06_term_monotone_per_id.
 Print Assumptions C06_precheck_is_stale.
 Print Assumptions C06_stale_heartbeat_rejected_unchanged_first.
 Print Assumptions C06_stale_heartbeat_rejected_unchanged_locked.
 Print Assumptions C06_rejected_unchanged.
 Print Assumptions C06_displaced_gone_from_cache.
-Print Assumptions C06_displaced_gone_from_storage_sequential_partial.
-Print Assumptions C06_displaced_gone_when_heartbeat_returns_sequential_partial.
+Print Assumptions C06_displaced_gone_from_storage_sequential.
+Print Assumptions C06_displaced_gone_when_heartbeat_returns_sequential.
 Print Assumptions C06_displaced_gone_from_storage_after_flush.
+Print Assumptions C06_displaced_gone_from_storage_interleaved.
+Print Assumptions C06_displaced_gone_from_storage_concurrent_refuted.
